@@ -112,7 +112,11 @@ def build_problem(case):
     mdp = cls(next_state_dist=nsd, reward=lambda s, a, ns: -succ[s][a][1], actions=lambda s: mk(acts[s]),
               initial_state_dist=make_dist(ik, start), is_absorbing=lambda s: goal[s])
     if case.get("tabular"):               # base object already USED (cached views built) before it is wrapped
-        mdp.state_list, mdp.action_list, mdp.transition_matrix, mdp.reward_matrix
+        mdp.reachable_states(), mdp.state_list, mdp.action_list
+        try:                              # (the matrices raise KeyError when an absorbing state has an action leading outside
+            mdp.transition_matrix, mdp.reward_matrix      # the reachable set: tabular-view matter, not judged here)
+        except KeyError:
+            pass
     return mdp
 
 
@@ -138,12 +142,12 @@ def run_alg(planner, get_problem, with_value, case):
     import msdm.algorithms.search as S
     _, _, _, aidx = label_maps(case)
     saved = S.random, S.heapq
+    shim, hshim = RandomShim(), HeapShim()
     try:
         prob = get_problem()
         for _ in range(2 if case.get("replan") else 1):       # same planner object, same problem object, again
             shim, hshim = RandomShim(), HeapShim()
             S.random, S.heapq = shim, hshim
-            planner._heap_shim = hshim
             out = describe(planner.plan_on(prob), with_value, case)
     except BaseException as e:
         if isinstance(e, (KeyboardInterrupt, SystemExit)):
@@ -188,6 +192,8 @@ def make_planners(case):
     num = int if case.get("num_type") == "int" else float
     if case.get("scenario") == "nested_h":
         hfun, seen = nested_heuristic(case)
+    elif case["heuristic"] == "zero":
+        hfun, seen = (lambda s: -num(0)), None          # label-independent: usable on a second problem
     else:
         hv = [float("inf") if x == "inf" else num(x) for x in case["h"]]     # heuristic COST per state
         hfun, seen = (lambda s: -hv[idx[s]]), None
